@@ -221,7 +221,331 @@ Qed.
 
 Lemma simples_combine (params : list str) vs : Forall simple vs -> simples (combine params vs).
 Proof.
-  intros H. revert params. induction H as [|v vs Hv _ IH]; intros [|p ps]; cbn [combine]; try constructor; auto.
+  intros H. unfold simples. revert params. induction H as [|v vs Hv _ IH]; intros [|p ps]; cbn [combine]; try (apply Forall_nil).
+  apply Forall_cons; [exact Hv | apply IH].
 Qed.
 Lemma map_fst_combine9 {A B} (a : list A) (b : list B) : length a = length b -> map fst (combine a b) = a.
 Proof. revert b. induction a as [|x a IH]; intros [|y b] H; cbn in *; try lia; auto. rewrite IH by lia. reflexivity. Qed.
+
+Section Eval9.
+Variable funs : list (str * function).
+Variable stdl : list fentry.
+Variable host : list str.
+Variable limit : N.
+Hypothesis Hnd : NoDup (map fst funs).
+Hypothesis Hok : forall pre n f later, funs = pre ++ (n, f) :: later -> pre <> [] -> fn_ok9 later f = true.
+
+Notation P := (map mk9 funs ++ stdl).
+Notation evalf := (eval P host limit).
+
+Lemma eval_cond9 fi e : expr_f1 e = true -> forall fuel s cs R g, st9 cs s R g ->
+  let r := evalf fuel (TkArgs false fi (en9 R cs) [e]) s in
+  r = RFuel \/
+  (exists v s', r = ok [v] (en9 R cs) s' /\ ev (R ++ g) e = Some v /\ simple v /\ st9 cs s' R g /\ st_cells s' = st_cells s) \/
+  (exists s', r = err EVarNotFound (en9 R cs) s' /\ ev (R ++ g) e = None /\ st9 cs s' R g /\ st_cells s' = st_cells s).
+Proof.
+  intros He fuel s cs R g Hs r.
+  pose proof (eval_cond6 P host limit fi e He fuel s (en9 R cs) (st_cells s) R g (st9_st6 _ _ _ _ Hs)) as H.
+  cbv zeta in H. fold r in H.
+  destruct H as [E|[(v & s1 & E & Hv & Hsv & Hs1)|(s1 & E & Hv & Hs1)]].
+  - left; exact E.
+  - right; left. exists v, s1. destruct (st6_st9 _ _ _ _ _ Hs Hs1). auto.
+  - right; right. exists s1. destruct (st6_st9 _ _ _ _ _ Hs Hs1). auto.
+Qed.
+
+Lemma eval_args9 fi es : forallb expr_f1 es = true -> forall fuel s cs R g, st9 cs s R g ->
+  let r := evalf fuel (TkArgs false fi (en9 R cs) es) s in
+  r = RFuel \/
+  (exists vs s', r = ok vs (en9 R cs) s' /\ evs (R ++ g) es = Some vs /\ st9 cs s' R g /\ st_cells s' = st_cells s) \/
+  (exists s', r = err EVarNotFound (en9 R cs) s' /\ evs (R ++ g) es = None /\ st9 cs s' R g /\ st_cells s' = st_cells s).
+Proof.
+  intros He fuel s cs R g Hs r.
+  assert (Hgood : Forall (expr_good6 P host limit fi) es).
+  { apply Forall_forall. intros e Hin. apply expr_f1_good6. rewrite forallb_forall in He. apply He, Hin. }
+  pose proof (eval_args6 P host limit fi es Hgood fuel s (en9 R cs) (st_cells s) R g (st9_st6 _ _ _ _ Hs)) as H.
+  fold r in H. destruct H as [E|[(vs & s1 & E & Hv & Hs1)|(s1 & E & Hv & Hs1)]].
+  - left; exact E.
+  - right; left. exists vs, s1. destruct (st6_st9 _ _ _ _ _ Hs Hs1). auto.
+  - right; right. exists s1. destruct (st6_st9 _ _ _ _ _ Hs Hs1). auto.
+Qed.
+
+Lemma nth_P pre n f later : funs = pre ++ (n, f) :: later -> nth_error P (length pre) = Some (mk9 (n, f)).
+Proof.
+  intros ->. rewrite map_app, <- app_assoc. rewrite nth_error_app2 by (rewrite map_length; lia).
+  rewrite map_length, Nat.sub_diag. reflexivity.
+Qed.
+
+Definition rhs_res9 (b : nat) (cs : list nat) (R : lstore) (s : state) (r : res) (out : option value * gl) : Prop :=
+  r = RFuel \/
+  exists s', keep b (st_cells s) (st_cells s') /\ (length (st_cells s) <= length (st_cells s'))%nat /\
+             st9 cs s' R (snd out) /\
+             match fst out with
+             | Some v => r = ok [v] (en9 R cs) s' /\ simple v
+             | None => exists e', r = err EVarNotFound e' s'
+             end.
+
+Definition stmt_res9 (ret : bool) (b : nat) (s : state) (r : res) (out : out9 * lstore * gl) : Prop :=
+  r = RFuel \/
+  exists s', keep b (st_cells s) (st_cells s') /\ (length (st_cells s) <= length (st_cells s'))%nat /\
+             gst s' (snd out) /\
+             match fst (fst out) with
+             | ONorm9 => exists cs', r = ok [] (en9 (snd (fst out)) cs') s' /\ st9 cs' s' (snd (fst out)) (snd out) /\
+                                     Forall (fun c => (b <= c)%nat) cs'
+             | ORet9 v => exists e', r = ROk (ORet v) e' s' /\ simple v /\ ret = true
+             | OErr9 => exists e', r = err EVarNotFound e' s'
+             end.
+
+Definition call_res9 (s : state) (r : res) (out : option value * gl) : Prop :=
+  r = RFuel \/
+  exists s', keep (length (st_cells s)) (st_cells s) (st_cells s') /\ (length (st_cells s) <= length (st_cells s'))%nat /\
+             gst s' (snd out) /\
+             match fst out with
+             | Some v => r = ok [v] empty_env s' /\ simple v
+             | None => r = err EVarNotFound empty_env s'
+             end.
+
+Definition all9 (fuel : nat) : Prop :=
+  (forall pre n f later vs s g, funs = pre ++ (n, f) :: later -> pre <> [] ->
+     gst s g -> Forall simple vs -> length vs = length (f_args f) ->
+     call_res9 s (evalf fuel (TkCallFn (length pre) vs) s) (call9 (sem9 later) f vs g)) /\
+  (forall pre n f later r b cs R s g, funs = pre ++ (n, f) :: later -> rhs9 (sig_of later) r = true ->
+     st9 cs s R g -> (b <= length (st_cells s))%nat ->
+     rhs_res9 b cs R s (evalf fuel (TkCard (length pre) (en9 R cs) r) s) (run_rhs9 (sem9 later) R g r)) /\
+  (forall pre n f later r b cs R s g, funs = pre ++ (n, f) :: later -> rhs9 (sig_of later) r = true ->
+     st9 cs s R g -> (b <= length (st_cells s))%nat ->
+     rhs_res9 b cs R s (evalf fuel (TkArgs false (length pre) (en9 R cs) [r]) s) (run_rhs9 (sem9 later) R g r)) /\
+  (forall pre n f later ret c b cs R s g, funs = pre ++ (n, f) :: later -> stmtR9 (sig_of later) ret c = true ->
+     st9 cs s R g -> Forall (fun c => (b <= c)%nat) cs -> (b <= length (st_cells s))%nat ->
+     stmt_res9 ret b s (evalf fuel (TkCard (length pre) (en9 R cs) c) s) (run9 (sem9 later) R g c)) /\
+  (forall pre n f later ret l b cs R s g, funs = pre ++ (n, f) :: later -> forallb (stmtR9 (sig_of later) ret) l = true ->
+     st9 cs s R g -> Forall (fun c => (b <= c)%nat) cs -> (b <= length (st_cells s))%nat ->
+     stmt_res9 ret b s (evalf fuel (TkSeq (length pre) (en9 R cs) l) s) (runs9 (sem9 later) R g l)).
+
+Lemma rhs_cases sg r : rhs9 sg r = true ->
+  (exists name args, r = CCall name args) \/
+  (expr_f1 r = true /\ forall cs R g, run_rhs9 cs R g r = (ev (R ++ g) r, g)).
+Proof.
+  intros H. destruct r; try (right; split; [exact H | reflexivity]). left. eauto.
+Qed.
+
+(* ---- the five parts, each from the parts at the fuel below ---- *)
+Lemma call_step f : all9 f ->
+  forall pre n fn later vs s g, funs = pre ++ (n, fn) :: later -> pre <> [] ->
+     gst s g -> Forall simple vs -> length vs = length (f_args fn) ->
+     call_res9 s (evalf (S f) (TkCallFn (length pre) vs) s) (call9 (sem9 later) fn vs g).
+Proof.
+  intros (_ & _ & _ & _ & IHB) pre n fn later vs s g Hfuns Hpre Hs Hvs Hlen.
+  unfold call_res9. cbn [eval]. unfold F. destruct (limit <? st_steps s)%N; [left; reflexivity|].
+  rewrite (nth_P _ _ _ _ Hfuns). cbn [mk9 fe_fn snd]. unfold call_body.
+  rewrite Hlen, Nat.ltb_irrefl. unfold bind_params.
+  set (R0 := combine (f_args fn) (rev vs)).
+  destruct (bind_params_go R0 [] (bump s)) as (s1 & Eb & Hc1 & Hh1 & Hg1). rewrite Eb. cbn [app].
+  cbn [bump st_cells st_heap st_globals] in Hc1, Hh1, Hg1.
+  change {| e_scopes := [combine (map fst R0) (seq (length (st_cells (bump s))) (length R0))]; e_up := [] |}
+    with (en9 R0 (seq (length (st_cells s)) (length R0))).
+  pose proof (Hok _ _ _ _ Hfuns Hpre) as Hfn. unfold fn_ok9 in Hfn.
+  apply andb_true_iff in Hfn. destruct Hfn as [_ Hcards]. apply cards9_R in Hcards.
+  destruct Hs as (Hh & Hg & Hsg).
+  assert (Hs1 : st9 (seq (length (st_cells s)) (length R0)) s1 R0 g).
+  { unfold st9. rewrite Hc1, Hh1, Hg1. repeat split; auto.
+    - apply cellrel_fresh.
+    - apply seq_NoDup.
+    - apply simples_app. split; [|exact Hsg]. apply simples_combine. apply Forall_rev, Hvs. }
+  assert (Hb : Forall (fun c => (length (st_cells s) <= c)%nat) (seq (length (st_cells s)) (length R0))).
+  { apply Forall_forall. intros c Hin. apply in_seq in Hin. lia. }
+  assert (Hb2 : (length (st_cells s) <= length (st_cells s1))%nat) by (rewrite Hc1, app_length; lia).
+  generalize (IHB pre n fn later true (f_cards fn) (length (st_cells s)) _ R0 s1 g Hfuns Hcards Hs1 Hb Hb2).
+  unfold call9. fold R0. destruct (runs9 (sem9 later) R0 g (f_cards fn)) as [[o R1] g1]. cbn [fst snd].
+  intros [E|(s2 & Hk & Hl & Hg2 & Hm)]; [rewrite E; left; reflexivity|].
+  right. exists s2. rewrite Hc1 in Hk. apply keep_app in Hk. split; [exact Hk|]. split; [lia|].
+  destruct o; cbn [fst snd].
+  - destruct Hm as (cs' & E & _). rewrite E. cbn [finish_call ok]. split; [exact Hg2|]. split; [reflexivity | exact I].
+  - destruct Hm as (e' & E & Hsv & _). rewrite E. cbn [finish_call ok]. split; [exact Hg2|]. split; [reflexivity | exact Hsv].
+  - destruct Hm as (e' & E). rewrite E. cbn [finish_call err]. split; [exact Hg2|]. reflexivity.
+Qed.
+
+Lemma rhs_card_step f : all9 f ->
+  forall pre n fn later r b cs R s g, funs = pre ++ (n, fn) :: later -> rhs9 (sig_of later) r = true ->
+     st9 cs s R g -> (b <= length (st_cells s))%nat ->
+     rhs_res9 b cs R s (evalf (S f) (TkCard (length pre) (en9 R cs) r) s) (run_rhs9 (sem9 later) R g r).
+Proof.
+  intros (IHC & _) pre n fn later r b cs R s g Hfuns Hr Hs Hb.
+  destruct (rhs_cases _ _ Hr) as [(name & args & ->)|[He Hrun]].
+  - cbn [rhs9] in Hr. apply andb_true_iff in Hr. destruct Hr as [Hargs Hsig].
+    destruct (Compiler.sm_find name (sig_of later)) as [a|] eqn:Esig; [|discriminate].
+    apply Nat.eqb_eq in Hsig.
+    destruct (sm_find_sem9 _ _ _ Esig) as (pre2 & f2 & later2 & Hlater & Ha & Hsem & _).
+    unfold rhs_res9. cbn [eval]. unfold F. destruct (limit <? st_steps s)%N; [left; reflexivity|].
+    cbn [eval_card].
+    pose proof (eval_args9 (length pre) args Hargs f (bump s) cs R g (st9_bump _ _ _ _ Hs))
+      as [E|[(vs & s1 & E & Hv & Hs1 & Hc1)|(s1 & E & Hv & Hs1 & Hc1)]]; cbv zeta in E; rewrite E; cbn [bnd ok err].
+    + left; reflexivity.
+    + assert (Hfuns2 : funs = (pre ++ (n, fn) :: pre2) ++ (name, f2) :: later2)
+        by (rewrite Hfuns, Hlater, <- app_assoc; reflexivity).
+      assert (Hres : resolve P (length pre) name = Some (length (pre ++ (n, fn) :: pre2))).
+      { rewrite Hfuns, Hlater. apply resolve_f9. rewrite <- Hlater, <- Hfuns. exact Hnd. }
+      rewrite Hres.
+      assert (Hsim : simples (R ++ g)) by (destruct Hs as (_ & _ & _ & _ & Hsim); exact Hsim).
+      destruct (evs_simple9 _ _ _ Hsim Hv) as [Hvs Hlen].
+      assert (Hpre2 : pre ++ (n, fn) :: pre2 <> []) by (destruct pre; discriminate).
+      assert (Hlen2 : length vs = length (f_args f2)) by congruence.
+      generalize (IHC _ name f2 later2 vs s1 g Hfuns2 Hpre2 (st9_gst _ _ _ _ Hs1) Hvs Hlen2).
+      cbn [run_rhs9]. rewrite evs9_eq, Hv, Hsem.
+      destruct (call9 (sem9 later2) f2 vs g) as [[v|] g2]; cbn [fst snd];
+        (intros [E2|(s2 & Hk & Hl & Hg2 & Hm)]; [rewrite E2; left; reflexivity|]);
+        pose proof (st9_keep _ _ _ _ _ _ Hs1 Hk Hg2) as Hs2;
+        rewrite Hc1 in Hk, Hl; cbn [bump st_cells] in Hk, Hl.
+      * destruct Hm as [E2 Hsv]. rewrite E2. cbn [bnd ok]. right. exists s2.
+        split; [eapply keep_le; [exact Hb | exact Hk]|]. split; [exact Hl|]. split; [exact Hs2|].
+        split; [reflexivity | exact Hsv].
+      * rewrite Hm. cbn [bnd err]. right. exists s2.
+        split; [eapply keep_le; [exact Hb | exact Hk]|]. split; [exact Hl|]. split; [exact Hs2|].
+        exists empty_env. reflexivity.
+    + cbn [run_rhs9]. rewrite evs9_eq, Hv. cbn [fst snd]. right. exists s1. rewrite Hc1. cbn [bump st_cells].
+      split; [apply keep_refl|]. split; [apply le_n|]. split; [exact Hs1|]. exists (en9 R cs). reflexivity.
+  - rewrite Hrun. unfold rhs_res9. cbn [fst snd].
+    assert (Hsim : simples (R ++ g)) by (destruct Hs as (_ & _ & _ & _ & Hsim); exact Hsim).
+    pose proof (expr_f1_good6 P host limit (length pre) r He (S f) s (en9 R cs) (st_cells s) R g (st9_st6 _ _ _ _ Hs))
+      as [E|[(v & s1 & E & Hv & Hs1)|(s1 & E & Hv & Hs1)]].
+    + left; exact E.
+    + destruct (st6_st9 _ _ _ _ _ Hs Hs1) as [Hs1' Hc1]. right. exists s1. rewrite Hc1.
+      split; [apply keep_refl|]. split; [apply le_n|]. split; [exact Hs1'|]. rewrite Hv.
+      split; [exact E|]. eapply ev_simple; [exact Hsim | exact Hv].
+    + destruct (st6_st9 _ _ _ _ _ Hs Hs1) as [Hs1' Hc1]. right. exists s1. rewrite Hc1.
+      split; [apply keep_refl|]. split; [apply le_n|]. split; [exact Hs1'|]. rewrite Hv.
+      exists (en9 R cs). exact E.
+Qed.
+
+Lemma rhs_arg_step f : all9 f ->
+  forall pre n fn later r b cs R s g, funs = pre ++ (n, fn) :: later -> rhs9 (sig_of later) r = true ->
+     st9 cs s R g -> (b <= length (st_cells s))%nat ->
+     rhs_res9 b cs R s (evalf (S f) (TkArgs false (length pre) (en9 R cs) [r]) s) (run_rhs9 (sem9 later) R g r).
+Proof.
+  intros (_ & IHE & _) pre n fn later r b cs R s g Hfuns Hr Hs Hb.
+  unfold rhs_res9. cbn [eval]. unfold F. destruct (limit <? st_steps s)%N; [left; reflexivity|].
+  generalize (IHE pre n fn later r b cs R (bump s) g Hfuns Hr (st9_bump _ _ _ _ Hs) Hb).
+  destruct (run_rhs9 (sem9 later) R g r) as [[v|] g1]; cbn [fst snd];
+    (intros [E|(s1 & Hk & Hl & Hs1 & Hm)]; [rewrite E; left; reflexivity|]).
+  - destruct Hm as [E Hsv]. rewrite E. cbn [bnd ok]. clear E.
+    destruct f as [|f']; [left; reflexivity|]. cbn [eval]. unfold F.
+    destruct (limit <? st_steps s1)%N; [left; reflexivity|].
+    cbn [bnd ok]. right. exists (bump s1). cbn [bump st_cells]. split; [exact Hk|]. split; [exact Hl|].
+    split; [apply st9_bump, Hs1|]. split; [reflexivity | exact Hsv].
+  - destruct Hm as [e' E]. rewrite E. cbn [bnd err]. right. exists s1. split; [exact Hk|]. split; [exact Hl|].
+    split; [exact Hs1|]. exists e'. reflexivity.
+Qed.
+
+Lemma stmt_res9_cells ret b s s1 r out : st_cells s1 = st_cells s -> stmt_res9 ret b s1 r out -> stmt_res9 ret b s r out.
+Proof. unfold stmt_res9. intros ->. auto. Qed.
+Lemma stay_norm ret b s s1 cs R g : st_cells s1 = st_cells s -> st9 cs s1 R g -> Forall (fun c => (b <= c)%nat) cs ->
+  stmt_res9 ret b s (ok [] (en9 R cs) s1) (ONorm9, R, g).
+Proof.
+  intros Hc Hs Hcs. right. exists s1. rewrite Hc. cbn [fst snd]. split; [apply keep_refl|]. split; [apply le_n|].
+  split; [eapply st9_gst, Hs|]. exists cs. auto.
+Qed.
+Lemma stay_err ret b s s1 cs R g e' R' : st_cells s1 = st_cells s -> st9 cs s1 R g ->
+  stmt_res9 ret b s (err EVarNotFound e' s1) (OErr9, R', g).
+Proof.
+  intros Hc Hs. right. exists s1. rewrite Hc. cbn [fst snd]. split; [apply keep_refl|]. split; [apply le_n|].
+  split; [eapply st9_gst, Hs|]. exists e'. reflexivity.
+Qed.
+
+Lemma stmt_step f : all9 f ->
+  forall pre n fn later ret c b cs R s g, funs = pre ++ (n, fn) :: later -> stmtR9 (sig_of later) ret c = true ->
+     st9 cs s R g -> Forall (fun c => (b <= c)%nat) cs -> (b <= length (st_cells s))%nat ->
+     stmt_res9 ret b s (evalf (S f) (TkCard (length pre) (en9 R cs) c) s) (run9 (sem9 later) R g c).
+Proof.
+  intros (_ & _ & IHD & IHA & _) pre n fn later ret c b cs R s g Hfuns Hc Hs Hcs Hb.
+  pose proof (st9_bump _ _ _ _ Hs) as Hbs.
+  destruct c; cbn [stmtR9] in Hc; try discriminate Hc.
+  - (* CBin *)
+    destruct op; try discriminate Hc; apply andb_true_iff in Hc; destruct Hc as [He Hbd];
+      cbn [eval]; unfold F; (destruct (limit <? st_steps s)%N; [left; reflexivity|]); cbn [eval_card run9];
+      (pose proof (eval_cond9 (length pre) _ He f (bump s) cs R g Hbs)
+         as [E|[(v & s1 & E & Hv & Hsv & Hs1 & Hc1)|(s1 & E & Hv & Hs1 & Hc1)]]; cbv zeta in E; rewrite E; cbn [bnd ok err one];
+       [left; reflexivity | | rewrite Hv; eapply stay_err; [exact Hc1 | exact Hs1]]);
+      rewrite Hv, (v_bool_simple _ _ Hsv); destruct (v_bool [] v); cbv iota.
+    + eapply stmt_res9_cells; [exact Hc1|]. apply (IHA pre n fn later ret c2 b cs R s1 g Hfuns Hbd Hs1 Hcs). rewrite Hc1. exact Hb.
+    + eapply stay_norm; [exact Hc1 | exact Hs1 | exact Hcs].
+    + eapply stay_norm; [exact Hc1 | exact Hs1 | exact Hcs].
+    + eapply stmt_res9_cells; [exact Hc1|]. apply (IHA pre n fn later ret c2 b cs R s1 g Hfuns Hbd Hs1 Hcs). rewrite Hc1. exact Hb.
+  - (* CTri *)
+    destruct op; try discriminate Hc. apply andb_true_iff in Hc. destruct Hc as [Hc Hb3].
+    apply andb_true_iff in Hc. destruct Hc as [He Hb2].
+    cbn [eval]; unfold F; (destruct (limit <? st_steps s)%N; [left; reflexivity|]); cbn [eval_card run9].
+    pose proof (eval_cond9 (length pre) _ He f (bump s) cs R g Hbs)
+      as [E|[(v & s1 & E & Hv & Hsv & Hs1 & Hc1)|(s1 & E & Hv & Hs1 & Hc1)]]; cbv zeta in E; rewrite E; cbn [bnd ok err one];
+      [left; reflexivity | | rewrite Hv; eapply stay_err; [exact Hc1 | exact Hs1]].
+    rewrite Hv, (v_bool_simple _ _ Hsv); destruct (v_bool [] v); cbv iota.
+    + eapply stmt_res9_cells; [exact Hc1|]. apply (IHA pre n fn later ret c2 b cs R s1 g Hfuns Hb2 Hs1 Hcs). rewrite Hc1. exact Hb.
+    + eapply stmt_res9_cells; [exact Hc1|]. apply (IHA pre n fn later ret c3 b cs R s1 g Hfuns Hb3 Hs1 Hcs). rewrite Hc1. exact Hb.
+  - (* CUn UReturn *)
+    destruct op; try discriminate Hc. apply andb_true_iff in Hc. destruct Hc as [Hret Hr].
+    cbn [eval]; unfold F; (destruct (limit <? st_steps s)%N; [left; reflexivity|]); cbn [eval_card run9].
+    generalize (IHD pre n fn later c b cs R (bump s) g Hfuns Hr Hbs Hb).
+    destruct (run_rhs9 (sem9 later) R g c) as [[v|] g1]; cbn [fst snd];
+      (intros [E|(s1 & Hk & Hl & Hs1 & Hm)]; [rewrite E; left; reflexivity|]).
+    + destruct Hm as [E Hsv]. rewrite E. cbn [bnd ok one]. right. exists s1. cbn [fst snd].
+      split; [exact Hk|]. split; [exact Hl|]. split; [eapply st9_gst, Hs1|]. exists (en9 R cs). auto.
+    + destruct Hm as [e' E]. rewrite E. cbn [bnd err]. right. exists s1. cbn [fst snd].
+      split; [exact Hk|]. split; [exact Hl|]. split; [eapply st9_gst, Hs1|]. exists e'. reflexivity.
+  - (* SetGlobalVar *)
+    apply andb_true_iff in Hc. destruct Hc as [Hne Hr]. apply negb_true_iff in Hne.
+    assert (Hne' : is_empty name = false) by (destruct name; [discriminate Hne | reflexivity]).
+    cbn [eval]; unfold F; (destruct (limit <? st_steps s)%N; [left; reflexivity|]); cbn [eval_card run9].
+    generalize (IHD pre n fn later c b cs R (bump s) g Hfuns Hr Hbs Hb).
+    destruct (run_rhs9 (sem9 later) R g c) as [[v|] g1]; cbn [fst snd];
+      (intros [E|(s1 & Hk & Hl & Hs1 & Hm)]; [rewrite E; left; reflexivity|]).
+    + destruct Hm as [E Hsv]. rewrite E. cbn [bnd ok one]. rewrite Hne'.
+      assert (Hs2 : st9 cs (set_globals (set_assoc name v (st_globals s1)) s1) R (set_assoc name v g1)).
+      { destruct Hs1 as (A & B & C & D & E'). apply simples_app in E'. destruct E' as [E1 E2].
+        unfold st9. cbn [set_globals st_heap st_globals st_cells]. rewrite B.
+        split; [exact A|]. split; [reflexivity|]. split; [exact C|]. split; [exact D|].
+        apply simples_app. split; [exact E1 | apply set_assoc_simple; assumption]. }
+      right. eexists. cbn [fst snd]. split; [exact Hk|]. split; [exact Hl|]. split; [eapply st9_gst, Hs2|].
+      exists cs. split; [reflexivity|]. split; [exact Hs2 | exact Hcs].
+    + destruct Hm as [e' E]. rewrite E. cbn [bnd err]. right. exists s1. cbn [fst snd].
+      split; [exact Hk|]. split; [exact Hl|]. split; [eapply st9_gst, Hs1|]. exists e'. reflexivity.
+  - (* SetVar *)
+    apply andb_true_iff in Hc. destruct Hc as [Hx Hr].
+    unfold var_ok in Hx. apply andb_true_iff in Hx. destruct Hx as [Hne Hdot]. apply negb_true_iff in Hne, Hdot.
+    assert (Hne' : is_empty name = false) by (destruct name; [discriminate Hne | reflexivity]).
+    cbn [eval]; unfold F; (destruct (limit <? st_steps s)%N; [left; reflexivity|]); cbn [eval_card run9].
+    generalize (IHD pre n fn later c b cs R (bump s) g Hfuns Hr Hbs Hb).
+    destruct (run_rhs9 (sem9 later) R g c) as [[v|] g1]; cbn [fst snd];
+      (intros [E|(s1 & Hk & Hl & Hs1 & Hm)]; [rewrite E; left; reflexivity|]).
+    + destruct Hm as [E Hsv]. rewrite E. cbn [bnd ok one]. rewrite (rsplit_no_dot _ Hdot), Hne', lookup_en9.
+      cbn [bump st_cells] in Hk, Hl, Hb.
+      destruct Hs1 as (A & B & C & D & E'). pose proof (cellrel_lookup _ _ _ C name) as Hlk.
+      pose proof E' as E''. apply simples_app in E''. destruct E'' as [E1 E2].
+      unfold sets_local. rewrite lmem_assoc.
+      destruct (assoc name R) as [old|] eqn:Ea.
+      * destruct Hlk as (c0 & Hl1 & Hl2). rewrite Hl1.
+        assert (Hin : In c0 cs) by (eapply assoc_combine_in; eauto).
+        assert (Hbc : (b <= c0)%nat) by (rewrite Forall_forall in Hcs; apply Hcs, Hin).
+        assert (Hs2 : st9 cs (set_cells (upd (st_cells s1) c0 v) s1) (set_assoc name v R) g1).
+        { unfold st9. cbn [set_cells st_heap st_globals st_cells].
+          split; [exact A|]. split; [exact B|]. split; [eapply cellrel_assign; eauto|]. split; [exact D|].
+          apply simples_app. split; [apply set_assoc_simple; assumption | exact E2]. }
+        right. eexists. cbn [fst snd set_cells st_cells].
+        split; [intros i Hi; rewrite nth_error_upd_other7 by lia; apply Hk, Hi|].
+        split; [rewrite upd_len9; exact Hl|]. split; [eapply st9_gst, Hs2|].
+        exists cs. split; [unfold en9; rewrite (set_assoc_names9 _ v _ _ Ea); reflexivity|].
+        split; [exact Hs2 | exact Hcs].
+      * rewrite Hlk. unfold declare, alloc_cell. cbn [en9 e_scopes e_up].
+        assert (Hs2 : st9 (length (st_cells s1) :: cs) (set_cells (st_cells s1 ++ [v]) s1) ((name, v) :: R) g1).
+        { unfold st9. cbn [set_cells st_heap st_globals st_cells].
+          split; [exact A|]. split; [exact B|]. split; [|split].
+          - constructor; [|apply cellrel_app, C]. unfold cellrel. cbn [snd]. rewrite nth_error_app2 by lia.
+            rewrite Nat.sub_diag. reflexivity.
+          - constructor; [|exact D]. intros Hin. pose proof (cellrel_bound _ _ _ C _ Hin). lia.
+          - cbn [app]. constructor; [exact Hsv | exact E']. }
+        right. eexists. cbn [fst snd set_cells st_cells].
+        split; [intros i Hi; rewrite nth_error_app1 by lia; apply Hk, Hi|].
+        split; [rewrite app_length; cbn [length]; lia|]. split; [eapply st9_gst, Hs2|].
+        exists (length (st_cells s1) :: cs). split; [reflexivity|]. split; [exact Hs2|].
+        constructor; [lia | exact Hcs].
+    + destruct Hm as [e' E]. rewrite E. cbn [bnd err]. right. exists s1. cbn [fst snd].
+      split; [exact Hk|]. split; [exact Hl|]. split; [eapply st9_gst, Hs1|]. exists e'. reflexivity.
+Qed.
+End Eval9.
